@@ -1975,7 +1975,7 @@ where
                 N
             };
 
-            let (right, left) = self.slices_uninit_mut();
+            let (right, _) = self.slices_uninit_mut();
 
             let write_len = core::cmp::min(right.len(), other.len());
             #[cfg(feature = "unstable")]
@@ -1983,7 +1983,12 @@ where
             #[cfg(not(feature = "unstable"))]
             write_uninit_slice_cloned(&mut right[..write_len], &other[..write_len]);
 
+            // The elements cloned so far are now part of the buffer: if one of the next calls to
+            // `clone()` panics, they must not be leaked.
+            self.size += write_len;
+
             let other = &other[write_len..];
+            let (left, _) = self.slices_uninit_mut();
             debug_assert!(left.len() >= other.len());
             let write_len = other.len();
             #[cfg(feature = "unstable")]
@@ -1991,6 +1996,7 @@ where
             #[cfg(not(feature = "unstable"))]
             write_uninit_slice_cloned(&mut left[..write_len], other);
 
+            debug_assert_eq!(self.size + write_len, final_size);
             self.size = final_size;
         } else {
             // `other` overwrites the whole buffer; get only the last `N` elements from `other` and
